@@ -112,6 +112,12 @@ class BloomDriver:
                 hs = self._hashes(k) if self.kind == "expanding" else o.hashes(k)
                 ctx.check(self._o("member"), ctx.call(self._o("member"), o.check_alt, hs) is True,
                           lambda: f"{what}: check_alt(hashes({k!r})) is not True for an added key")
+                # a hash list computed for a larger depth starts with the same values (prefix stability, C18): still present
+                from probables.hashes import default_fnv_1a
+                longer = (self.hf or default_fnv_1a)(k, len(hs) + 3)
+                if longer[: len(hs)] == hs:
+                    ctx.check(self._o("member"), ctx.call(self._o("member"), o.check_alt, longer) is True,
+                              lambda: f"{what}: check_alt(hashes({k!r}, depth={len(hs) + 3})) is not True for an added key")
         if self._o("counter"):
             ea = o.elements_added
             ctx.check(self._o("counter"), ea == self.count,
@@ -160,6 +166,17 @@ class BloomDriver:
             self.keys.append(k)
             self.count += 1
             ctx.op("add", op[1] % len(self.pool), force)
+        elif kind == "setcount":
+            # elements_added is documented as settable: from here on the documented value is what was assigned (+ later adds)
+            if self.kind == "expanding":
+                return self.step(["add", op[1]])
+            v = op[1] % 50
+            def assign():
+                o.elements_added = v
+            ctx.call(anyo, assign)
+            self.count = v
+            self.events.add("setcount")
+            ctx.op("setcount", v)
         elif kind == "bulk":
             n = 5 + op[1] % 40
             for i in range(n):
@@ -359,7 +376,7 @@ def case_strategy(tier, kinds=("bloom", "ondisk", "expanding"), hashes=None, max
             est, fpr = draw(gen.bloom_geom_st(big=big))
         op = st.one_of(
             st.tuples(st.just("add"), idx), st.tuples(st.just("add"), idx), st.tuples(st.just("add"), idx),
-            st.tuples(st.just("addf"), idx), st.tuples(st.just("bulk"), st.integers(0, 39)),
+            st.tuples(st.just("addf"), idx), st.tuples(st.just("bulk"), st.integers(0, 39)), st.tuples(st.just("setcount"), st.integers(0, 49)),
             st.tuples(st.just("push"), idx),
             st.tuples(st.just("clear")),
             st.tuples(st.just("reload"), st.integers(0, 5)),
